@@ -40,10 +40,10 @@ func patBytes(n int, seed byte) []byte {
 
 func buildTS(c *Chooser, l string) cdrFile.CdrHdrTimeStamp {
 	return cdrFile.CdrHdrTimeStamp{
-		MonthLocal:  pick[uint8](c, l+".month", 1, 0, 12, 14, 15),
-		DateLocal:   pick[uint8](c, l+".date", 1, 0, 30, 31),
-		HourLocal:   pick[uint8](c, l+".hour", 0, 1, 23, 30, 31),
-		MinuteLocal: pick[uint8](c, l+".minute", 0, 1, 59, 62, 63),
+		MonthLocal:                            pick[uint8](c, l+".month", 1, 0, 12, 14, 15),
+		DateLocal:                             pick[uint8](c, l+".date", 1, 0, 30, 31),
+		HourLocal:                             pick[uint8](c, l+".hour", 0, 1, 23, 30, 31),
+		MinuteLocal:                           pick[uint8](c, l+".minute", 0, 1, 59, 62, 63),
 		SignOfTheLocalTimeDifferentialFromUtc: pick[uint8](c, l+".sign", 1, 0),
 		HourDeviation:                         pick[uint8](c, l+".hdev", 0, 1, 14, 30, 31),
 		MinuteDeviation:                       pick[uint8](c, l+".mdev", 0, 1, 30, 31, 32, 45, 62, 63),
